@@ -15,7 +15,7 @@ def code_of(out, caught):
     if out["o"] == "syntax":
         return "syntax"
     if out["o"] == "jserror":
-        return "jserror:" + str(out.get("name"))
+        return "jserror"                   # reached Python as a JSError (class name not judged)
     if out["o"] == "host":
         return "host:" + str(out.get("type"))
     return out["o"]                        # hang, timelimit, memlimit
@@ -23,6 +23,7 @@ def code_of(out, caught):
 
 def script_channel(api, ctx, got, body, wall):
     del got[:]
+    _emits[0] = 0
     out = api.eval_outcome(ctx, body, wall=wall, cap=20_000_000)
     if out["o"] == "value":
         if len(got) != 1:
@@ -32,19 +33,50 @@ def script_channel(api, ctx, got, body, wall):
     return code_of(out, None)
 
 
+EMIT_CAP = 3_000_000
+_emits = [0]
+
+
+def install_emit_counter(api):
+    """Unbounded compilation is detected by counting, not by the clock: every instruction the regex compiler emits is
+    counted and the construction is stopped (outcome "hang") beyond EMIT_CAP.  If the internal name is gone the
+    wall-clock watchdog of api.run remains."""
+    try:
+        from microjs.regex.compiler import RegexCompiler
+    except Exception:       # noqa: BLE001
+        return False
+    if getattr(RegexCompiler, "_verif_wrapped", False):
+        return True
+    orig = getattr(RegexCompiler, "_emit", None)
+    if orig is None:
+        return False
+
+    def counted(self, *a, **k):
+        _emits[0] += 1
+        if _emits[0] > EMIT_CAP:
+            raise api.HarnessHang("emit cap")
+        return orig(self, *a, **k)
+    RegexCompiler._emit = counted
+    RegexCompiler._verif_wrapped = True
+    return True
+
+
 def construct_batch(case, api):
     """case = {id, items:[{id, p:[units], fl:"", uncaught:bool, wall:float}]}"""
     from microjs.regex import RegExp, RegExpError
+    install_emit_counter(api)
     ctx = api.new_context(time_limit=None)
     got = []
-    ctx.set("__out", lambda *a: (got.append(str(a[0])), None)[1])
-    api.eval_outcome(ctx, CLASSIFY_JS + "function __isre(r) { return (r instanceof RegExp) ? 'ok' : 'notregexp'; }", wall=10.0)
+    # success = the expression produced a RegExp object (classified on the raw engine value, not by script code)
+    ctx.set("__out", lambda *a: (got.append(str(a[0]) if len(a) == 1 else ("ok" if wire.to_wire(a[1]).get("k") == "regex" else "notregexp")), None)[1])
+    api.eval_outcome(ctx, CLASSIFY_JS, wall=10.0)
     res = []
     for it in case["items"]:
         p = wire.from_units(it["p"])
         fl = it.get("fl", "")
         wall = float(it.get("wall", 10.0))
         # channel 1: the package API
+        _emits[0] = 0
         out = api.run(lambda: RegExp(p, fl), wall=wall, cap=10**9)
         if out["o"] == "value":
             c1 = "ok"
@@ -56,21 +88,21 @@ def construct_batch(case, api):
         # channel 2: literal (only where the text can be written as a literal: non-empty, no line break, no "/" )
         lit_ok = p != "" and "\n" not in p and "/" not in p and not p.startswith("*")
         if lit_ok and not it.get("nolit"):
-            ch.append(script_channel(api, ctx, got, "try { var r = /" + p + "/" + fl + "; __out(__isre(r)); } catch (e) { __out(__cls(e)); }", wall))
+            ch.append(script_channel(api, ctx, got, "try { var r = /" + p + "/" + fl + "; __out('v', r); } catch (e) { __out(__cls(e)); }", wall))
         else:
             ch.append("skip")
         ctx.set("P", p)
         ctx.set("F", fl)
-        ch.append(script_channel(api, ctx, got, "try { var r = RegExp(P, F); __out(__isre(r)); } catch (e) { __out(__cls(e)); }", wall))
-        ch.append(script_channel(api, ctx, got, "try { var r = new RegExp(P, F); __out(__isre(r)); } catch (e) { __out(__cls(e)); }", wall))
+        ch.append(script_channel(api, ctx, got, "try { var r = RegExp(P, F); __out('v', r); } catch (e) { __out(__cls(e)); }", wall))
+        ch.append(script_channel(api, ctx, got, "try { var r = new RegExp(P, F); __out('v', r); } catch (e) { __out(__cls(e)); }", wall))
         un = []
         if it.get("uncaught"):
             if lit_ok and not it.get("nolit"):
-                un.append(script_channel(api, ctx, got, "var r = /" + p + "/" + fl + "; __out(__isre(r));", wall))
+                un.append(script_channel(api, ctx, got, "var r = /" + p + "/" + fl + "; __out('v', r);", wall))
             else:
                 un.append("skip")
-            un.append(script_channel(api, ctx, got, "var r = RegExp(P, F); __out(__isre(r));", wall))
-            un.append(script_channel(api, ctx, got, "var r = new RegExp(P, F); __out(__isre(r));", wall))
+            un.append(script_channel(api, ctx, got, "var r = RegExp(P, F); __out('v', r);", wall))
+            un.append(script_channel(api, ctx, got, "var r = new RegExp(P, F); __out('v', r);", wall))
         res.append({"id": it["id"], "ch": ch, "un": un})
     return res
 
@@ -130,6 +162,8 @@ def run_driver(case, api):
             out_code = "capped" if "count cap" in out.get("why", "") else "hang"
         elif out["o"] == "host" and out.get("type") == "RegexTimeoutError":
             out_code = "timeout"                     # the package's documented way of reporting an aborted run
+        elif out["o"] == "host" and out.get("type") == "RegexStackOverflow":
+            out_code = "overflow"                    # likewise exported by the package for an exhausted backtrack stack
         else:
             out_code, ty = out["o"], str(out.get("type", ""))
     else:
@@ -152,6 +186,8 @@ def run_driver(case, api):
             out_code = "capped" if "count cap" in out.get("why", "") else "hang"
         elif out["o"] == "timelimit":
             out_code = "timeout"
+        elif out["o"] in ("jserror", "memlimit"):
+            out_code, ty = "jserror", str(out.get("name", out["o"]))      # an error of the JSError family
         else:
             out_code, ty = out["o"], str(out.get("type", out.get("name", "")))
     api.steps.user = None
